@@ -41,7 +41,10 @@ func init() {
 			}
 			nr := curRun.Natives["rules"].(*nativeRules)
 			for _, L := range []int64{3, 6} {
-				jobs = append(jobs, batchJobs("verifC13LazyCompile", len(nr.texts), 10, L)...)
+				for _, j := range batchJobs("verifC13LazyCompile", len(nr.texts), 10, L) {
+					j.Raw = true // the real matchPattern, not the literal-pattern stub of the table harnesses
+					jobs = append(jobs, j)
+				}
 			}
 			for _, sh := range [][][2]int{{{5, 0}}, {{3, 0}}, {{5, 0}, {3, 0}}, {{0, 1}, {5, 0}}} {
 				for _, ul := range []int64{5, 6} {
